@@ -281,6 +281,9 @@ ObjArgSeqs ==
     <<Arg("in", ObjV([a |-> Var("sv"), l |-> ListV(<<Var("sv"), StrV("k")>>)])), Arg("l", ListV(<<Var("sv")>>))>>,
     <<Arg("l", ListV(<<StrV("x"), Var("sv")>>))>>,
     <<Arg("l", ListV(<<>>)), Arg("in", ObjV([n |-> IntV(7)]))>>,
+    \* null written where the field has a default: null it is, here and in the members of a list
+    <<Arg("in", ObjV([a |-> StrV("lit"), n |-> NullV]))>>,
+    <<Arg("ins", ListV(<<ObjV([n |-> NullV]), ObjV([a |-> Var("sv"), n |-> NullV]), ObjV([a |-> StrV("k")])>>))>>,
     \* a nested literal holding a variable BEFORE members that are plain or variables themselves
     <<Arg("ins", ListV(<<ObjV([a |-> Var("sv")]), ObjV([a |-> StrV("k")])>>))>>,
     <<Arg("ins", ListV(<<ObjV([a |-> Var("sv"), l |-> ListV(<<Var("sv")>>)])>>)), Arg("ll", ListV(<<ListV(<<StrV("x"), Var("sv")>>), ListV(<<StrV("y")>>)>>))>>,
